@@ -418,6 +418,16 @@ class Program:
                                 return tgt
                         if isinstance(v.func, ast.Attribute) and v.func.attr == "from_hdf5":
                             return self.recv_class(v.func.value, func)
+                        # a copy / same-class view of an object of known class: copy.copy(x), x._some_view()
+                        if self.dotted(v.func, func) in ("copy.copy", "copy.deepcopy") and v.args:
+                            c_ = self.recv_class(v.args[0], func)
+                            if c_ is not None:
+                                return c_
+                        if isinstance(v.func, ast.Attribute) and isinstance(v.func.value, ast.Name) and v.func.value.id != expr.id:
+                            c_ = self.recv_class(v.func.value, func)
+                            m_ = self.lookup_method(c_, v.func.attr) if c_ is not None else None
+                            if m_ is not None and any(isinstance(x, ast.Call) and ((isinstance(x.func, ast.Attribute) and x.func.attr == "__new__") or src(x.func) in ("copy.copy", "copy.deepcopy", f"type({m_.self_name})", "cls")) for x in ast.walk(m_.node)) and any(isinstance(r_, ast.Return) and isinstance(r_.value, ast.Name) for r_ in ast.walk(m_.node)):
+                                return c_
             cname = self.RECEIVER_NAMES.get((func.module.name, expr.id))
             if cname:
                 return self.class_index.get(cname)
